@@ -154,6 +154,10 @@ type pushLog struct {
 	by    map[string][]pushEntry
 	stats map[string]*pushStats
 	total int
+	// dropped: per proxy, every key that some push carried while the request handed to the generators did not. Kept for
+	// the whole case: the entries of "by" are a bounded window, and with many scenario clients per proxy (C05) the push
+	// that dropped a key has long left it when the final oracle looks for the cause.
+	dropped map[string]map[string]bool
 }
 
 func (p *pushLog) add(id string, e pushEntry) {
@@ -175,6 +179,24 @@ func (p *pushLog) add(id string, e pushEntry) {
 	if !e.pushed {
 		ps.dropped++
 	}
+	for _, k := range e.in {
+		kept := false
+		for _, o := range e.out {
+			if o == k {
+				kept = true
+				break
+			}
+		}
+		if !kept {
+			if p.dropped == nil {
+				p.dropped = map[string]map[string]bool{}
+			}
+			if p.dropped[id] == nil {
+				p.dropped[id] = map[string]bool{}
+			}
+			p.dropped[id][k] = true
+		}
+	}
 	p.by[id] = append(p.by[id], e)
 	if len(p.by[id]) > 400 {
 		p.by[id] = p.by[id][200:]
@@ -187,19 +209,9 @@ func (p *pushLog) add(id string, e pushEntry) {
 func (p *pushLog) serviceKeyDropped(proxyID, hostname string) bool {
 	p.mu.Lock()
 	defer p.mu.Unlock()
-	for _, e := range p.by[proxyID] {
-		for _, k := range e.in {
-			if strings.HasPrefix(k, "ServiceEntry/") && strings.HasSuffix(k, "/"+hostname) {
-				kept := false
-				for _, o := range e.out {
-					if o == k {
-						kept = true
-					}
-				}
-				if !kept {
-					return true
-				}
-			}
+	for k := range p.dropped[proxyID] {
+		if strings.HasPrefix(k, "ServiceEntry/") && strings.HasSuffix(k, "/"+hostname) {
+			return true
 		}
 	}
 	return false
@@ -210,20 +222,9 @@ func (p *pushLog) serviceKeyDropped(proxyID, hostname string) bool {
 func (p *pushLog) keyDropped(proxyID, prefix string) bool {
 	p.mu.Lock()
 	defer p.mu.Unlock()
-	for _, e := range p.by[proxyID] {
-		for _, k := range e.in {
-			if !strings.HasPrefix(k, prefix) {
-				continue
-			}
-			kept := false
-			for _, o := range e.out {
-				if o == k {
-					kept = true
-				}
-			}
-			if !kept {
-				return true
-			}
+	for k := range p.dropped[proxyID] {
+		if strings.HasPrefix(k, prefix) {
+			return true
 		}
 	}
 	return false
